@@ -31,3 +31,7 @@ def requires(expr):
 def set_probe(x):
     from pyvc import ntrace
     ntrace.REG['probe'] = x
+
+
+def reveal(m, meth):
+    pass
